@@ -26,20 +26,73 @@ def tables(wdir):
     return out
 
 
+def cyc_roots(rng, uni, main):
+    """Prefer extra roots that lie on a dependency cycle and are reachable from the main root, in a version that is not the
+    highest one: an answer cached while such a package was the root is the one most likely to leak into a later resolution."""
+    succ = {p["name"]: {d["name"] for v in p["versions"] for d in v["deps"]} for p in uni}
+
+    def reach(a):
+        seen, todo = set(), [a]
+        while todo:
+            x = todo.pop()
+            for y in succ.get(x, ()):
+                if y not in seen:
+                    seen.add(y)
+                    todo.append(y)
+        return seen
+    from_main = reach(main)
+    cands = [p for p in uni if p["name"] != main and p["name"] in from_main and p["name"] in reach(p["name"])]
+    rest = [p for p in uni if p["name"] != main and p not in cands]
+    rng.shuffle(cands)
+    rng.shuffle(rest)
+    out = []
+    for p in (cands + rest)[:2]:
+        vs = sorted(x["v"] for x in p["versions"])
+        out.append({"name": p["name"], "v": rng.choice(vs[:-1]) if len(vs) > 1 and rng.random() < 0.7 else rng.choice(vs)})
+    return out
+
+
+def add_cycle(sysn, uni, main, tb):
+    """A two-package cycle cy <-> cz hanging under the main root, with two versions of cy: resolving cy@low as a root goes
+    through the root package again, and the main root reaches the same requirement on cy from outside."""
+    if sysn == "NPM":
+        lo, hi, anyreq = 4, 9, 1           # 1.0.0, 2.0.0, "*"
+        dep = lambda n: {"name": n, "r": anyreq, "kind": "reg", "alias": ""}
+        cy = {"name": "cy", "versions": [{"v": lo, "latest": False, "dep": False, "deps": [dep("cz")]}, {"v": hi, "latest": True, "dep": False, "deps": [dep("cz")]}]}
+        cz = {"name": "cz", "versions": [{"v": lo, "latest": True, "dep": False, "deps": [dep("cy")]}]}
+    elif sysn == "Maven":
+        lo, hi = 1, 5                        # 1.0, 2.0 ; range [1.0,2.0) = 8 ... use "[1.5,)"? keep a range that both... soft would pin: use hard (,2.0] = 10
+        dep = lambda n, r: {"name": n, "g": n.split(":")[0], "a": n.split(":")[1], "r": r, "scope": "compile", "opt": False, "typ": "", "cls": "", "excl": [], "mgmt": False}
+        cy = {"name": "gc:cy", "g": "gc", "a": "cy", "versions": [{"v": lo, "deps": [dep("gc:cz", 1)]}, {"v": hi, "deps": [dep("gc:cz", 1)]}]}
+        cz = {"name": "gc:cz", "g": "gc", "a": "cz", "versions": [{"v": lo, "deps": [dep("gc:cy", 10)]}]}
+    else:
+        lo, hi, anyreq = 1, 5, 1             # 1.0, 2.0, ">=1.0"
+        dep = lambda n: {"name": n, "r": anyreq, "m": 0, "extras": []}
+        cy = {"name": "cy", "versions": [{"v": lo, "deps": [dep("cz")]}, {"v": hi, "deps": [dep("cz")]}]}
+        cz = {"name": "cz", "versions": [{"v": lo, "deps": [dep("cy")]}]}
+    uni += [cy, cz]
+    mainrec = [p for p in uni if p["name"] == main][0]
+    if sysn == "Maven":
+        mainrec["versions"][0]["deps"].append(dep(cz["name"], 1))
+    else:
+        mainrec["versions"][0]["deps"].append(dep(cz["name"]))
+    return [{"name": cy["name"], "v": lo}, {"name": cy["name"], "v": hi}]
+
+
 def gen_case(rng, sysn, tb):
     if sysn == "NPM":
         uni, roots = c06.gen_universe(rng, tb["NPM"])
         extra = [p for p in uni if p["name"] != "root"]
-        rs = [roots[0]] + [{"name": p["name"], "v": rng.choice(p["versions"])["v"]} for p in rng.sample(extra, 2)]
+        rs = [roots[0]] + (add_cycle(sysn, uni, "root", tb) if rng.random() < 0.34 else cyc_roots(rng, uni, "root"))
         return {"universe": uni, "root": roots[0]}, rs
     if sysn == "Maven":
         uni, root = c07.gen_universe(rng, tb["Maven"], soft_only=rng.random() < 0.4)
         extra = [p for p in uni if p["name"] != root["name"]]
-        rs = [root] + [{"name": p["name"], "v": rng.choice(p["versions"])["v"]} for p in rng.sample(extra, 2)]
+        rs = [root] + (add_cycle(sysn, uni, root["name"], tb) if rng.random() < 0.34 else cyc_roots(rng, uni, root["name"]))
         return {"universe": uni, "root": root, "softonly": False}, rs
     uni, root = c08.gen_universe(rng, tb["PyPI"])
     extra = [p for p in uni if p["name"] != root["name"]]
-    rs = [root] + [{"name": p["name"], "v": rng.choice(p["versions"])["v"]} for p in rng.sample(extra, 2)]
+    rs = [root] + (add_cycle(sysn, uni, root["name"], tb) if rng.random() < 0.34 else cyc_roots(rng, uni, root["name"]))
     return {"universe": uni, "root": root}, rs
 
 
@@ -72,11 +125,15 @@ def run(ctx):
         states, gen = r.distinct, r.generated
         plans = vlib.read_ndjson(planf)
         rng = random.Random(ctx.seed * 86028121 + 1)
-        nuni = 12 if quick else 120
+        nuni = 20 if quick else 150
         for sysn in ("NPM", "Maven", "PyPI"):
             for _ in range(nuni):
                 case, roots = gen_case(rng, sysn, tb)
-                for pl in rng.sample(plans, 25 if quick else 120):
+                seqplans = [pl for pl in plans if all(st["kind"] == "one" for st in pl["steps"])]
+                batchplans = [pl for pl in plans if any(st["kind"] == "batch" for st in pl["steps"])]
+                # every purely sequential plan (they are few) plus a sample of the plans with concurrent batches
+                chosen = (seqplans if quick else rng.sample(seqplans, min(len(seqplans), 150))) + rng.sample(batchplans, 12 if quick else 60)
+                for pl in chosen:
                     cases.append({"sys": sysn, "case": case, "roots": roots, "steps": pl["steps"], "orders": 0, "parallel": 0})
                 cases.append({"sys": sysn, "case": case, "roots": roots, "steps": [], "orders": 4, "parallel": 0})
                 race_cases.append({"sys": sysn, "case": case, "roots": roots, "steps": [], "orders": 0, "parallel": 16})
